@@ -265,7 +265,8 @@ func (x *reasm) c01r1() {
 		}
 		r.Check(ok, "caller of Add: "+fnName(s.Caller), s.Instr.Pos(), "Put passes its own msg parameter", "Add called from "+fnName(s.Caller)+" ("+s.Kind+") or with a value other than the pushed message")
 	}
-	r.Check(len(sites) == 1, "Add has one call site", x.add.Pos(), "", fmt.Sprintf("Add has %d call sites", len(sites)))
+	// (how often Add runs per push is decided on the paths of Put, R3; one call per branch is fine)
+	r.Check(len(sites) >= 1, "Add is called", x.add.Pos(), "", "Add has no call site")
 }
 
 // R2: keying.
@@ -306,25 +307,42 @@ func (x *reasm) c01r2() {
 	r.Check(len(elems) == 1 && stripConv(elems[0]) == key, "seqs element", appends[0].Pos(), "same value appended to seqs", "element appended to seqs is not the lookup key")
 	// receiver of Add
 	calls := callsIn(x.put, x.add)
-	if len(calls) == 1 {
-		recv := calls[0].Common().Args[0]
-		okRecv := false
-		if phi, ok := recv.(*ssa.Phi); ok && len(phi.Edges) == 2 {
-			var hasFound, hasNew bool
-			for _, e := range phi.Edges {
-				if ex, ok := e.(*ssa.Extract); ok && ex.Tuple == ssa.Value(lookups[0]) && ex.Index == 0 {
-					hasFound = true
-				}
-				if e == updates[0].Value {
-					hasNew = true
-				}
-			}
-			okRecv = hasFound && hasNew
-		}
-		r.Check(okRecv, "Add receiver", calls[0].Pos(), "Add's receiver is φ{found event, inserted event}", "Add's receiver is "+Term(recv))
-	} else {
-		r.Fail("Add receiver", x.put.Pos(), fmt.Sprintf("%d calls of Add in Put", len(calls)))
+	// every receiver of Add is the found event or the one just inserted (one call on a merged
+	// value, or one call per branch); both must occur
+	var hasFound, hasNew bool
+	okRecv := len(calls) >= 1
+	isFound := func(e ssa.Value) bool {
+		ex, ok := e.(*ssa.Extract)
+		return ok && ex.Tuple == ssa.Value(lookups[0]) && ex.Index == 0
 	}
+	for _, c := range calls {
+		recv := c.Common().Args[0]
+		var vals []ssa.Value
+		if phi, ok := recv.(*ssa.Phi); ok {
+			vals = phi.Edges
+		} else {
+			vals = []ssa.Value{recv}
+		}
+		for _, e := range vals {
+			switch {
+			case isFound(e):
+				hasFound = true
+			case e == updates[0].Value:
+				hasNew = true
+			default:
+				okRecv = false
+			}
+		}
+		// a call on the found event alone must be under `found`
+		if len(vals) == 1 && isFound(vals[0]) {
+			okRecv = okRecv && HoldsAt(c.Block(), "has("+Term(lookups[0].X)+", "+Term(lookups[0].Index)+")")
+		}
+	}
+	pos := x.put.Pos()
+	if len(calls) > 0 {
+		pos = calls[0].Pos()
+	}
+	r.Check(okRecv && hasFound && hasNew, "Add receiver", pos, "Add's receiver is the found event or the inserted event", fmt.Sprintf("Add is called on something other than the found or the newly inserted event (%d calls)", len(calls)))
 }
 
 // R3: EOE never buffered, everything else exactly once.
@@ -366,6 +384,23 @@ func (x *reasm) c01r3() {
 	}
 }
 
+// loadedBefore: every instruction v is computed from runs before `before` on the path — the
+// value is the head as it was before remove() changed the list (whether it is appended to the
+// batch before or after the removal does not matter).
+func loadedBefore(p *Path, v ssa.Value, before ssa.Instruction) bool {
+	var ins []ssa.Instruction
+	leafInstrs(v, map[ssa.Value]bool{}, &ins)
+	for _, in := range ins {
+		if _, isAl := in.(*ssa.Alloc); isAl {
+			continue
+		}
+		if o := p.order(in); o >= 0 && o > p.order(before) {
+			return false
+		}
+	}
+	return true
+}
+
 // evictionLoops implements C01.R4 (+ C02.R5 and C19.R4 checks share the same loop analysis).
 func (x *reasm) evictionLoops(ruleID, clause string) {
 	r := x.r
@@ -401,7 +436,7 @@ func (x *reasm) evictionLoops(ruleID, clause string) {
 					_, isPhi := base.(*ssa.Phi)
 					ok = isPhi && len(elems) == 1 && Term(elems[0]) == "p0.events[p0.seqs[0]]" &&
 						computedIn(elems[0], l.Body) &&
-						p.order(c) < p.order(removes[0].Instr) &&
+						loadedBefore(p, elems[0], removes[0].Instr) &&
 						isParamValue(removes[0].Instr.(ssa.CallInstruction).Common().Args[0], fn.Params[0])
 					if ok {
 						// the appended slice must be what flows round the loop and is returned
